@@ -12,6 +12,7 @@ Inductive opname := OpEq | OpLt | OpLe | OpGt | OpGe | OpCmp | OpPartialCmp.
 (** The shapes of hand-written operator bodies in metadata.rs. *)
 Inductive gbody :=
 | GRel (l : side * conv) (r : rel) (rr : side * conv)   (* l REL rr *)
+| GNotRel (l : side * conv) (r : rel) (rr : side * conv) (* !(l REL rr) *)
 | GCmp (l rr : side * conv)                            (* l.cmp(&rr) *)
 | GSomeCmp (l rr : side * conv)                        (* Some(l.cmp(&rr)) *)
 | GSomeSelfCmp                                         (* Some(self.cmp(other)) *)
